@@ -94,3 +94,28 @@ func igamc(a, x float64) float64 {
 	}
 	return ans * ax
 }
+
+// igam_alt1: the same series with the do-while written as a flag-controlled for loop (the flag is true on entry,
+// so the body runs at least once, and is recomputed from the same test after every pass).
+func igam_alt1(a, x float64) float64 {
+	if x <= 0 || a <= 0 {
+		return 0
+	}
+	if x > 1 && x > a {
+		return 1 - igamc(a, x)
+	}
+	ax := a*math.Log(x) - x - lgam(a)
+	if ax < -maxLog {
+		return 0
+	}
+	ax = math.Exp(ax)
+	r := a
+	c := 1.0
+	ans := 1.0
+	for more := true; more; more = c/ans > macheP {
+		r += 1
+		c *= x / r
+		ans += c
+	}
+	return ans * ax / a
+}
